@@ -1,5 +1,6 @@
 (* Correspondence entry point: one op name + arguments -> canonical observation.
    Extracted to OCaml (Extract.v) and driven by ocaml/driver.ml. *)
+From Ufw Require Gen.BfGen_LM Gen.BfGen_BM.
 From Ufw Require Import Base.Val Base.Bits Base.Errno Model.Crc Model.ByteBuffer Model.Endpoints Model.Varint Model.Ring Model.Slip Model.Lenp Model.Persist Model.BinFmt Gen.BfGen_LB Model.RegTable Model.Regp Model.Sx.
 Local Open Scope string_scope.
 Local Open Scope N_scope.
@@ -364,6 +365,18 @@ Definition run_ps (op : string) (a : list val) : list val :=
 Fixpoint assoc {A} (k : string) (l : list (string * A)) : option A :=
   match l with [] => None | (n, v) :: r => if String.eqb n k then Some v else assoc k r end.
 Definition sname (v : val) : string := match v with VS s => s | _ => "" end.
+
+(* structural equality of observations *)
+Fixpoint listN_eqb (a b : list N) : bool :=
+  match a, b with [], [] => true | x :: a', y :: b' => (x =? y) && listN_eqb a' b' | _, _ => false end.
+Definition val_eqb (a b : val) : bool :=
+  match a, b with
+  | VN x, VN y => x =? y | VZ x, VZ y => (x =? y)%Z | VH x, VH y => listN_eqb x y
+  | VS x, VS y => String.eqb x y | _, _ => false
+  end.
+Fixpoint list_val_eqb (a b : list val) : bool :=
+  match a, b with [], [] => true | x :: a', y :: b' => val_eqb x y && list_val_eqb a' b' | _, _ => false end.
+
 Definition run_bf (op : string) (a : list val) : list val :=
   let name := sname (arg 0 a) in
   if String.eqb op "bf.ref" then
@@ -382,6 +395,42 @@ Definition run_bf (op : string) (a : list val) : list val :=
     | Some f => [vint (f (argZ 1 a))]
     | None => [VS "no-such-function"]
     end
+  else if String.eqb op "bf.self" then
+    (* bf.self cfg s:name class width order memory position value: the function as translated for configuration cfg
+       (0 = the build, 1 = little-endian with mask swaps, 2 = big-endian with mask swaps) against its specification;
+       the implementation side of this operation is the constant "agree" *)
+    let cfg := argN 0 a in let name := sname (arg 1 a) in
+    let class := argN 2 a in let w := argN 3 a in let ord := argN 4 a in
+    let mem := map Z.of_N (argH 5 a) in let pos := N.to_nat (argN 6 a) in let v := argZ 7 a in
+    let isbig := cfg =? 2 in
+    let k := N.to_nat (w / 8) in
+    let tw := if w =? 16 then 16%Z else if w <=? 32 then 32%Z else 64%Z in
+    let reft := if cfg =? 0 then bf_ref_table else if cfg =? 1 then BfGen_LM.bf_ref_table else BfGen_BM.bf_ref_table in
+    let sett := if cfg =? 0 then bf_set_table else if cfg =? 1 then BfGen_LM.bf_set_table else BfGen_BM.bf_set_table in
+    let intt := if cfg =? 0 then bf_int_table else if cfg =? 1 then BfGen_LM.bf_int_table else BfGen_BM.bf_int_table in
+    let uref := if ord =? 0 then from_host isbig (rd mem pos k) else if ord =? 1 then ofbZ (rd mem pos k) else oflZ (rd mem pos k) in
+    let verdict (got want : list val) := if list_val_eqb got want then [VS "agree"] else (VS "differ" :: got ++ VS "want" :: want)%list in
+    if class <=? 2 then
+      match assoc name reft with
+      | Some f => verdict [vint (f mem pos)] [vint (if class =? 1 then sextZ (Z.of_N w) uref else uref)]
+      | None => [VS "no-such-function"]
+      end
+    else if class =? 3 then
+      match assoc name sett with
+      | Some f => let '(m, p) := f mem pos v in
+                  let u := (v mod 2 ^ tw)%Z in
+                  let bytes := if ord =? 0 then host_bytes isbig k u else if ord =? 1 then bebZ k u else lebZ k u in
+                  verdict [VH (map Z.to_N m); VN (N.of_nat p)] [VH (map Z.to_N (wr mem pos bytes)); VN (N.of_nat (pos + k))]
+      | None => [VS "no-such-function"]
+      end
+    else
+      match assoc name intt with
+      | Some f => verdict [vint (f v)]
+                    [vint (if class =? 4 then bswap k v
+                           else if class =? 5 then (if (v <? 2 ^ Z.of_N w)%Z then 1 else 0)%Z
+                           else (if ((- 2 ^ (Z.of_N w - 1) <=? v) && (v <? 2 ^ (Z.of_N w - 1)))%Z then 1 else 0)%Z)]
+      | None => [VS "no-such-function"]
+      end
   else [VS "unknown-op"].
 
 (* ---------------- register table (C01-C05) ---------------- *)
